@@ -58,8 +58,16 @@ def main():
     ni, gs = src['net']
     import random as _random
 
+    def twin_labels():
+        # labels that differ from one another only in letter case or in zero padding (a / A, x1 / x01, n3 / N3)
+        ins = ['a', 'A', 'b', 'B', 'x1', 'x01', 'c', 'C'][:ni]
+        gl = [(f'n{k // 2}' if k % 2 == 0 else f'N{k // 2}') if k % 4 < 2 else (f'w{k // 2}' if k % 2 == 0 else f'w0{k // 2}') for k in range(len(gs))]
+        return ins + gl
+
     def build():
         net = (ni, [(t, list(o)) for t, o in gs])
+        if src.get('twins') and ni <= 8:
+            return gen.materialize(net, labels=twin_labels(), outputs=src['outs'])
         if src.get('storage') == 'shuffled':
             order = list(range(ni + len(gs)))
             _random.Random(src.get('ss', 0)).shuffle(order)
